@@ -327,6 +327,7 @@ pub fn apply_mismatch(cfg: &mut RunCfg, rng: &mut Rng) {
         choices.push("psk-bit");
         choices.push("psk-bit");
         choices.push("psk-long-via-set_psk");
+        choices.push("psk-short-via-set_psk");
     }
     choices.push("big-prologue-tail");
     if proto.is_psk() {
@@ -383,6 +384,22 @@ pub fn apply_mismatch(cfg: &mut RunCfg, rng: &mut Rng) {
                 let tail = rng.bytes(extra);
                 cfg.nodes[side].psks[k].key.extend_from_slice(&tail);
                 cfg.nodes[side].psks[k].at_boot = false;
+            },
+            "psk-short-via-set_psk" => {
+                // one side tries to install, through set_psk, only the first L bytes of a key
+                // whose remaining bytes are zero on the other side (an implementation that pads a
+                // short key with zeros would let the two meet)
+                let k = rng.usize_below(cfg.nodes[side].psks.len());
+                let l = *rng.pick(&[0usize, 1, 16, 31]);
+                let idx = cfg.nodes[side].psks[k].idx;
+                cfg.nodes[side].psks[k].key.truncate(l);
+                cfg.nodes[side].psks[k].at_boot = false;
+                let prefix = cfg.nodes[side].psks[k].key.clone();
+                for p in cfg.nodes[1 - side].psks.iter_mut().filter(|p| p.idx == idx) {
+                    let mut full = prefix.clone();
+                    full.resize(32, 0);
+                    p.key = full;
+                }
             },
             "psk-replace-one-side" => {
                 // the configurations are equal; one side replaces its PSK through set_psk before
@@ -1476,12 +1493,15 @@ pub fn sc_stateless_enum(idx: u64, seed: u64, _t: bool) -> RunOut {
 /// genuine next message, and the peers then exchange more than 2^18 (thorough: 2^20) messages per
 /// direction in order under one key (the counter crosses 255/256, 65535/65536, 2^18 by counting,
 /// not by placement; behaviour that depends on how often a key was used shows up here, up to that
-/// bound). 12 runs.
+/// bound), then rekey more than 2^16 times in step and exchange messages again. 18 runs: 3 ciphers
+/// x 2 backends x {both stateful, stateless receiver, stateless sender}.
 pub fn sc_soak(idx: u64, seed: u64, thorough: bool) -> RunOut {
-    let i = idx % 12;
+    let i = idx % 18;
     let cipher = ["ChaChaPoly", "AESGCM", "XChaChaPoly"][(i % 3) as usize];
     let backend = [Backend::Default, Backend::RingFirst][((i / 3) % 2) as usize];
-    let stateless_rcv = (i / 6) % 2 == 1;
+    // 0: both ends stateful; 1: stateless receiver; 2: stateless sender
+    let mode = (i / 6) % 3;
+    let (stateless_snd, stateless_rcv) = (mode == 2, mode == 1);
     let opts = CfgOpts { force_name: Some(format!("Noise_XX_25519_{cipher}_BLAKE2s")), force_backend: Some(backend), ..CfgOpts::default() };
     run_custom(idx, seed, "soak", &opts, |d| {
         // handshake: before each genuine delivery the reader rejects a few hundred forged
@@ -1503,14 +1523,22 @@ pub fn sc_soak(idx: u64, seed: u64, thorough: bool) -> RunOut {
             }
             d.step(Op::Read { node: rd, src: Src::Next, mutation: Mutation::None, out: Buf::Ample, nonce: NonceSel::Auto });
         }
-        d.step(Op::Convert { node: 0, stateless: false });
+        d.step(Op::Convert { node: 0, stateless: stateless_snd });
         d.step(Op::Convert { node: 1, stateless: stateless_rcv });
         d.step(Op::TrafficBurst { node: 0, count: 3, plen: 10 });
         d.step(Op::GarbageBurst { node: 1, count: (1 << 20) + 64, len: 33, seed: 7 });
         // more than 2^18 (thorough: 2^20) accepted messages under one key, in both directions
-        d.step(Op::TrafficBurst { node: 0, count: if thorough { (1 << 20) + 3_000 } else { (1 << 18) + 3_000 }, plen: 4 });
+        let n = if thorough { (1 << 20) + 3_000 } else { (1 << 18) + 3_000 };
+        d.step(Op::TrafficBurst { node: 0, count: n, plen: 4 });
         if !stateless_rcv {
-            d.step(Op::TrafficBurst { node: 1, count: if thorough { (1 << 20) + 3_000 } else { (1 << 18) + 3_000 }, plen: 0 });
+            d.step(Op::TrafficBurst { node: 1, count: n, plen: 0 });
+        }
+        // more than 2^16 rekeys in step, then traffic again
+        d.step(Op::RekeyBurst { node: 0, count: if thorough { 300_000 } else { 70_000 } });
+        d.step(Op::TrafficBurst { node: 0, count: 3, plen: 7 });
+        if !stateless_rcv {
+            d.step(Op::RekeyBurst { node: 1, count: 300 });
+            d.step(Op::TrafficBurst { node: 1, count: 3, plen: 7 });
         }
         d.step(Op::Query { node: 0 });
         d.step(Op::Query { node: 1 });
@@ -1702,7 +1730,7 @@ pub fn grid_space(name: &str, thorough: bool) -> Option<u64> {
         "boundary-sweep" => 512,
         "auth-enum" => 768,
         "stateless-enum" => 360,
-        "soak" => 12,
+        "soak" => 18,
         "soak-hs" | "x-soak-hs" => 20,
         _ => return None,
     })
@@ -1733,21 +1761,21 @@ macro_rules! scen {
 pub fn check_table() -> Vec<Check> {
     const RULE: &str = "runs are generated by a seeded driver (stratified over 38 patterns x psk class x DH x cipher x hash by run index, everything else PRNG); a run is non-trivial if at least one injected fault fired (for fault-free scenarios: it completed a handshake), and distinct by hash of (configuration stratum, sequence of (phase, call, result) events)";
     let mut table = vec![
-        Check { id: "C01", level: "exploration", rule: RULE, enumerations: vec![], scens: vec![scen!("interop", sc_interop, 24_000, 600_000, 0x101), scen!("honest", sc_honest, 8_000, 200_000, 0x102), scen!("fail-retry", sc_fail_retry_ledger, 6_000, 100_000, 0x103), scen!("framing-boundary", sc_framing_boundary, 3_040, 10_640, 0x104), scen!("soak", sc_soak, 12, 12, 0x105)] },
+        Check { id: "C01", level: "exploration", rule: RULE, enumerations: vec![], scens: vec![scen!("interop", sc_interop, 24_000, 600_000, 0x101), scen!("honest", sc_honest, 8_000, 200_000, 0x102), scen!("fail-retry", sc_fail_retry_ledger, 6_000, 100_000, 0x103), scen!("framing-boundary", sc_framing_boundary, 3_040, 10_640, 0x104), scen!("soak", sc_soak, 18, 18, 0x105)] },
         Check { id: "C02", level: "exploration", rule: RULE, enumerations: vec![], scens: vec![scen!("honest", sc_honest, 24_000, 600_000, 0x201), scen!("interop", sc_interop, 8_000, 200_000, 0x202), scen!("fail-retry", sc_fail_retry_ledger, 6_000, 100_000, 0x203), scen!("framing-boundary", sc_framing_boundary, 3_040, 10_640, 0x204), scen!("soak-hs", sc_soak_hs, 20, 20, 0x205)] },
         Check { id: "C03", level: "exploration", rule: RULE, enumerations: vec![], scens: vec![scen!("tamper-hs", sc_tamper_hs, 30_000, 800_000, 0x301), scen!("chaos", sc_chaos, 4_000, 100_000, 0x302)] },
         Check { id: "C04", level: "exploration", rule: RULE, enumerations: vec![], scens: vec![scen!("transport-auth", sc_transport_auth, 20_000, 500_000, 0x401), scen!("stateless", sc_stateless, 6_000, 100_000, 0x402), scen!("framing-boundary", sc_framing_boundary, 3_040, 10_640, 0x403), scen!("auth-enum", sc_auth_enum, 768, 768, 0x404)] },
-        Check { id: "C05", level: "exploration", rule: RULE, enumerations: vec![], scens: vec![scen!("transport-sched", sc_transport_sched, 24_000, 600_000, 0x501), scen!("nonce", sc_nonce, 4_000, 100_000, 0x502), scen!("sched-enum", sc_sched_enum, 7_500, 7_500, 0x503), scen!("nonce-enum", sc_nonce_enum, 5_184, 15_552, 0x504), scen!("soak", sc_soak, 12, 12, 0x505)] },
+        Check { id: "C05", level: "exploration", rule: RULE, enumerations: vec![], scens: vec![scen!("transport-sched", sc_transport_sched, 24_000, 600_000, 0x501), scen!("nonce", sc_nonce, 4_000, 100_000, 0x502), scen!("sched-enum", sc_sched_enum, 7_500, 7_500, 0x503), scen!("nonce-enum", sc_nonce_enum, 5_184, 15_552, 0x504), scen!("soak", sc_soak, 18, 18, 0x505)] },
         Check { id: "C06", level: "exploration", rule: RULE, enumerations: vec!["real-rng"], scens: vec![scen!("fail-retry-ledger", sc_fail_retry_ledger, 24_000, 600_000, 0x601), scen!("chaos", sc_chaos, 6_000, 100_000, 0x602), scen!("nonce", sc_nonce, 6_000, 100_000, 0x603), scen!("fail-retry-enum", sc_fail_retry_enum, 7_680, 30_720, 0x604)] },
         Check { id: "C07", level: "exploration", rule: RULE, enumerations: vec![], scens: vec![scen!("fail-retry-control", sc_fail_retry_control, 20_000, 500_000, 0x701), scen!("transport-sched", sc_transport_sched, 4_000, 100_000, 0x702), scen!("fail-retry-enum", sc_fail_retry_enum, 7_680, 30_720, 0x703), scen!("soak-hs", sc_soak_hs, 20, 20, 0x704)] },
         Check { id: "C08", level: "exploration", rule: RULE, enumerations: vec![], scens: vec![scen!("mismatch", sc_mismatch, 24_000, 600_000, 0x801), scen!("mismatch-cross", sc_mismatch_cross, 8_000, 200_000, 0x802)] },
-        Check { id: "C09", level: "exploration", rule: RULE, enumerations: vec![], scens: vec![scen!("nonce", sc_nonce, 24_000, 600_000, 0x901), scen!("stateless", sc_stateless, 4_000, 100_000, 0x902), scen!("nonce-enum", sc_nonce_enum, 15_552, 15_552, 0x903), scen!("soak", sc_soak, 12, 12, 0x904)] },
-        Check { id: "C10", level: "exploration", rule: RULE, enumerations: vec!["names"], scens: vec![scen!("chaos", sc_chaos, 16_000, 500_000, 0xA01), scen!("chaos-keys", sc_chaos_keys, 8_000, 200_000, 0xA02), scen!("framing", sc_framing, 6_000, 100_000, 0xA03), scen!("statemachine", sc_statemachine, 4_000, 100_000, 0xA04), scen!("boundary-sweep", sc_boundary_sweep, 1_536, 6_144, 0xA05)] },
+        Check { id: "C09", level: "exploration", rule: RULE, enumerations: vec![], scens: vec![scen!("nonce", sc_nonce, 24_000, 600_000, 0x901), scen!("stateless", sc_stateless, 4_000, 100_000, 0x902), scen!("nonce-enum", sc_nonce_enum, 15_552, 15_552, 0x903), scen!("soak", sc_soak, 18, 18, 0x904)] },
+        Check { id: "C10", level: "exploration", rule: RULE, enumerations: vec!["names"], scens: vec![scen!("chaos", sc_chaos, 16_000, 500_000, 0xA01), scen!("chaos-keys", sc_chaos_keys, 8_000, 200_000, 0xA02), scen!("framing", sc_framing, 6_000, 100_000, 0xA03), scen!("statemachine", sc_statemachine, 4_000, 100_000, 0xA04), scen!("boundary-sweep", sc_boundary_sweep, 1_536, 6_144, 0xA05), scen!("soak", sc_soak, 18, 18, 0xA06)] },
         Check { id: "C11", level: "exploration", rule: RULE, enumerations: vec![], scens: vec![scen!("statemachine", sc_statemachine, 30_000, 800_000, 0xB01), scen!("call-enum", sc_call_enum, 7_776, 279_936, 0xB02)] },
         Check { id: "C12", level: "fault_enumeration", rule: "boot half: every (pattern, role, subset of {local static, remote static} supplied, psk modifier index 0..9 / none / fallback, resolver lacking each primitive) is booted once - complete enumeration; a boot is non-trivial if it is not the all-keys-supplied no-modifier default; run-time half: seeded sessions with PSKs withheld at boot", enumerations: vec!["boot-matrix"], scens: vec![scen!("boot-runtime", sc_boot_runtime, 12_000, 300_000, 0xC01)] },
         Check { id: "C14", level: "exploration", rule: RULE, enumerations: vec![], scens: vec![scen!("framing", sc_framing, 24_000, 600_000, 0xE01), scen!("interop", sc_interop, 6_000, 100_000, 0xE02), scen!("framing-boundary", sc_framing_boundary, 10_640, 42_560, 0xE03), scen!("boundary-sweep", sc_boundary_sweep, 1_536, 6_144, 0xE04)] },
-        Check { id: "C15", level: "exploration", rule: RULE, enumerations: vec![], scens: vec![scen!("rekey", sc_rekey, 24_000, 600_000, 0xF01), scen!("nonce", sc_nonce, 6_000, 100_000, 0xF02), scen!("nonce-enum", sc_nonce_enum, 15_552, 15_552, 0xF03), scen!("rekey-enum", sc_rekey_enum, 15_552, 15_552, 0xF04)] },
-        Check { id: "C16", level: "exploration", rule: RULE, enumerations: vec!["stateless-threads"], scens: vec![scen!("stateless", sc_stateless, 24_000, 600_000, 0x1001), scen!("stateless-enum", sc_stateless_enum, 360, 360, 0x1002), scen!("auth-enum", sc_auth_enum, 768, 768, 0x1003), scen!("soak", sc_soak, 12, 12, 0x1004)] },
+        Check { id: "C15", level: "exploration", rule: RULE, enumerations: vec![], scens: vec![scen!("rekey", sc_rekey, 24_000, 600_000, 0xF01), scen!("nonce", sc_nonce, 6_000, 100_000, 0xF02), scen!("nonce-enum", sc_nonce_enum, 15_552, 15_552, 0xF03), scen!("rekey-enum", sc_rekey_enum, 15_552, 15_552, 0xF04), scen!("soak", sc_soak, 18, 18, 0xF05)] },
+        Check { id: "C16", level: "exploration", rule: RULE, enumerations: vec!["stateless-threads"], scens: vec![scen!("stateless", sc_stateless, 24_000, 600_000, 0x1001), scen!("stateless-enum", sc_stateless_enum, 360, 360, 0x1002), scen!("auth-enum", sc_auth_enum, 768, 768, 0x1003), scen!("soak", sc_soak, 18, 18, 0x1004)] },
         Check { id: "C17", level: "exploration", rule: RULE, enumerations: vec![], scens: vec![scen!("honest", sc_honest, 16_000, 400_000, 0x1101), scen!("fail-retry", sc_fail_retry_ledger, 8_000, 200_000, 0x1102)] },
         Check { id: "C19", level: "exploration", rule: RULE, enumerations: vec![], scens: vec![scen!("leak", sc_leak, 24_000, 600_000, 0x1301), scen!("tamper-hs", sc_tamper_hs, 6_000, 100_000, 0x1302), scen!("leak-enum", sc_leak_enum, 2_700, 2_700, 0x1303)] },
         Check { id: "C20", level: "exploration", rule: RULE, enumerations: vec!["fallback-table"], scens: vec![scen!("backends-twin", sc_backends_twin, 8_000, 200_000, 0x1401), scen!("rekey-enum-twin", sc_rekey_enum_twin, 5_184, 5_184, 0x1402)] },
